@@ -69,6 +69,7 @@ func (gj *groupJob[T]) Close() error {
 	if err := gj.markClosed(); err != nil {
 		return err
 	}
+	vhook("jclose.marked", gj)
 
 	gj.wgc.Done()
 
@@ -145,6 +146,7 @@ func (gj *resultGroupJob[T, R]) Close() error {
 	if err := gj.markClosed(); err != nil {
 		return err
 	}
+	vhook("jclose.marked", gj)
 
 	// only the job that takes the counter to zero closes the shared channel
 	if gj.wgc.Done() {
@@ -227,6 +229,7 @@ func (gj *errorGroupJob[T]) Close() error {
 	if err := gj.markClosed(); err != nil {
 		return err
 	}
+	vhook("jclose.marked", gj)
 
 	// only the job that takes the counter to zero closes the shared channel
 	if gj.wgc.Done() {
